@@ -3,7 +3,7 @@
     source with arbitrary short reads.  Only statements live here. *)
 From Coq Require Import List ZArith Bool.
 From V Require Import Gen.Params Lib.Hex Wire.Varint H3Stream.Model H3Stream.Proofs H3Stream.ProofsStream
-  H3Stream.ProofsExact H3Stream.ProofsBody H3Stream.ProofsSettings.
+  H3Stream.ProofsExact H3Stream.ProofsBody H3Stream.ProofsTrunc H3Stream.ProofsSettings.
 Import ListNotations.
 Open Scope Z_scope.
 
@@ -145,6 +145,62 @@ Example C18_content_length_under_witness_rejected :
 Proof. exact content_length_under_witness_rejected. Qed.
 Print Assumptions C18_content_length_under_witness_rejected.
 
+(** A valid frame sequence [fs] followed by the beginning [part] of one more frame [f0], cut
+    anywhere inside it (type, length or payload; DATA or ignorable frame), and then the end of
+    the stream -- FIN, or a stream error that does not accompany data.  For every short-read
+    schedule and every buffer sequence: the reads return a prefix of the DATA payloads; the
+    stream is NEVER ended by a clean io.EOF; after FIN the error is io.ErrUnexpectedEOF and the
+    connection is closed with H3_FRAME_ERROR (RFC 9114, 7.1); no error, no close; and with
+    enough non-empty buffers the error is reached.  (True of the repaired ParseNext / Stream.Read;
+    on the unrepaired code this was the finding h3/truncated-frame-clean-eof.) *)
+Theorem C18_truncation_reported :
+  forall (fs : list wframe) (f0 : wframe) (part rest : list Z)
+         (sched : list Z) (fin : err) (fw : bool) (maxHdr : Z) (bufs : list Z),
+  Forall wf_frame fs -> wf_frame f0 -> enc f0 = part ++ rest -> part <> [] -> rest <> [] ->
+  (fin = EEOF \/ fw = false) ->
+  exists out e x' tl,
+    stream_reads (new_stream (mkSrc (wire fs ++ part) sched fin fw) maxHdr) bufs = (out, e, x') /\
+    payload (fs ++ [f0]) = out ++ tl /\
+    e <> Some EEOF /\
+    (e = None -> x_closed x' = None) /\
+    (fin = EEOF -> e = None \/ (e = Some EUnexpectedEOF /\ x_closed x' = Some h3ErrCodeFrameError)) /\
+    (all_pos bufs -> (length (wire fs ++ part) < length bufs)%nat -> e <> None).
+Proof. exact truncation_reported. Qed.
+Print Assumptions C18_truncation_reported.
+
+(** The same over ANY prefix [d] of the wire image of a valid frame sequence, ended by FIN: a
+    clean io.EOF is returned only when the cut is at a frame boundary (and then exactly the
+    payloads of the complete frames were delivered); otherwise io.ErrUnexpectedEOF + H3_FRAME_ERROR. *)
+Theorem C18_truncation_reported_prefix :
+  forall (fs : list wframe) (d suf : list Z) (sched : list Z) (fw : bool) (maxHdr : Z) (bufs : list Z),
+  Forall wf_frame fs -> wire fs = d ++ suf ->
+  exists out e x' tl,
+    stream_reads (new_stream (mkSrc d sched EEOF fw) maxHdr) bufs = (out, e, x') /\
+    payload fs = out ++ tl /\
+    (e = None \/
+     (e = Some EEOF /\ x_closed x' = None /\ exists fs1 fs2, fs = fs1 ++ fs2 /\ d = wire fs1 /\ out = payload fs1) \/
+     (e = Some EUnexpectedEOF /\ x_closed x' = Some h3ErrCodeFrameError)) /\
+    (all_pos bufs -> (length d < length bufs)%nat -> e <> None).
+Proof. exact truncation_reported_prefix. Qed.
+Print Assumptions C18_truncation_reported_prefix.
+
+Theorem C18_frame_error_code : h3ErrCodeFrameError = 262.
+Proof. reflexivity. Qed.
+Print Assumptions C18_frame_error_code.
+
+(** Non-vacuity: the example sequence cut 1 byte into the payload of its last DATA frame, and
+    cut inside the 2-byte type field of its first DATA frame. *)
+Example C18_example_truncated :
+  (let '(out, e, x') := stream_reads (new_stream (mkSrc (firstn 18 (wire example_frames)) [1; 2; 1] EEOF true) 64)
+                                    [3; 1; 4096; 7; 7] in
+   out = [1; 2; 3; 4] /\ e = Some EUnexpectedEOF /\ x_closed x' = Some 262) /\
+  (let '(out, e, x') := stream_reads (new_stream (mkSrc (firstn 5 (wire example_frames)) [] EEOF false) 64) [10; 10] in
+   out = [] /\ e = Some EUnexpectedEOF /\ x_closed x' = Some 262) /\
+  (let '(out, e, x') := stream_reads (new_stream (mkSrc (firstn 10 (wire example_frames)) [] EEOF false) 64) [10; 10; 10] in
+   out = [1; 2; 3] /\ e = Some EEOF /\ x_closed x' = None).
+Proof. vm_compute. auto 10. Qed.
+Print Assumptions C18_example_truncated.
+
 (** SETTINGS: a payload of (identifier, value) pairs is accepted iff no identifier repeats and
     the boolean settings (ENABLE_CONNECT_PROTOCOL, H3_DATAGRAM) carry 0 or 1; a frame longer
     than 8 KiB is rejected before anything is read. *)
@@ -154,6 +210,26 @@ Theorem C18_settings_rules :
   (forall (s : src) (l : Z), 8192 < l -> parse_settings s l = (inl ESettingsSize, s)).
 Proof. exact settings_rules. Qed.
 Print Assumptions C18_settings_rules.
+
+(** SETTINGS and GOAWAY through ParseNext, with their values: an accepted SETTINGS frame yields
+    exactly MAX_FIELD_SECTION_SIZE (or -1), the two booleans, and the unknown settings in order;
+    a GOAWAY frame yields the stream ID when its length is the length of the varint, else the
+    "inconsistent length" error. *)
+Theorem C18_settings_goaway_values :
+  (forall (f : nat) (s : src) (cl : option Z) (th lh rest : list Z) (ps : list (Z * Z)) (fr : settings),
+     benign s -> venc th 4 -> venc lh (zlen (enc_pairs ps)) -> zlen (enc_pairs ps) <= 8192 -> Forall pair_ok ps ->
+     settings_payload (enc_pairs ps) = inr fr -> s_data s = th ++ lh ++ enc_pairs ps ++ rest ->
+     (exists s', parse_next (S f) s cl = (inr (FSettings fr), s', cl) /\ s_data s' = rest) /\
+     st_other fr = filter unknown_setting ps /\
+     st_mfs fr = match pair_val h3SettingMaxFieldSectionSize ps with Some v => v | None => -1 end /\
+     st_ec fr = match pair_val h3SettingExtendedConnect ps with Some v => v =? 1 | None => false end /\
+     st_dg fr = match pair_val h3SettingDatagram ps with Some v => v =? 1 | None => false end) /\
+  (forall (f : nat) (s : src) (cl : option Z) (th lh ie rest : list Z) (l id : Z),
+     benign s -> venc th 7 -> venc lh l -> venc ie id -> s_data s = th ++ lh ++ ie ++ rest ->
+     exists s', parse_next (S f) s cl =
+                  ((if zlen ie =? l then inr (FGoaway id) else inl EGoawayLen), s', cl) /\ s_data s' = rest).
+Proof. exact settings_goaway_through_parser. Qed.
+Print Assumptions C18_settings_goaway_values.
 
 (** Non-vacuity: a concrete well-formed frame sequence (GREASE frame, non-minimal DATA header,
     empty DATA frame, MAX_PUSH_ID frame) read byte-by-byte with mixed buffers. *)
@@ -174,3 +250,10 @@ Example C18_example_settings :
   settings_payload (enc_pairs [(8, 2)]) = inl (ESettingsBool 8).
 Proof. vm_compute. auto. Qed.
 Print Assumptions C18_example_settings.
+
+Example C18_example_goaway :
+  fst (fst (parse_next 5 (mkSrc [7; 1; 4; 0] [1; 1; 1] EEOF false) None)) = inr (FGoaway 4) /\
+  fst (fst (parse_next 5 (mkSrc [7; 2; 4; 0] [] EEOF false) None)) = inl EGoawayLen /\
+  fst (fst (parse_next 5 (mkSrc [4; 4; 6; 64; 200; 51] [] EEOF true) None)) = inl ETruncated.
+Proof. vm_compute. auto. Qed.
+Print Assumptions C18_example_goaway.
